@@ -27,13 +27,32 @@ static void pX(const char* tag, const Transform& X) {
 int main(int argc, char** argv) {
     unsigned long long seed = std::strtoull(argv[1], 0, 10); int n = std::atoi(argv[2]);
     Rng r(seed);
-    for (int k = 0; k < n; ++k) {
-        int type = k % NMOBTYPES; bool rev = r.I(0, 1) == 1; bool euler = r.I(0, 1) == 1; int frames = r.I(0, 1);
+    // fixed regression cases run first (witnesses of defects repaired in /repo, see known_findings.txt `fixed:` lines):
+    //  0 Ellipsoid radii (1,2,3), F and M aligned, u=(1,0,0)        (7c1ce7f5; Coq: Ell_fitV_prefix_refuted)
+    //  1 Ellipsoid sphere, general orientation                      (7c1ce7f5: transform fit failed even for a sphere)
+    //  2 BendStretch q=(0,-1)                                       (c1dcbf40; Coq: BendStretch_fit_prefix_negative_stretch_refuted)
+    //  3 BendStretch q=(2.5,-0.7)
+    //  4 SphericalCoords default options q=(0.5,0.7,2) u=(0.1,-0.2,0.3)   (e26a1a3b)
+    //  5 SphericalCoords all negated, x axis, offsets, same q,u     (e26a1a3b)
+    const int NREG = 6;
+    struct Reg { int type; std::vector<Real> par, q, u; };
+    const Reg regs[NREG] = {
+        { 12, { 1, 2, 3 }, { 1, 0, 0, 0 }, { 1, 0, 0 } },
+        { 12, { 0.8, 0.8, 0.8 }, { 0.5, -0.5, 0.5, 0.5 }, { 0.3, -0.2, 0.7 } },
+        { 4, {}, { 0, -1 }, { 0.4, 0.6 } },
+        { 4, {}, { 2.5, -0.7 }, { -0.4, 0.9 } },
+        { 15, { 0, 1, 0, 1, -1, 1 }, { 0.5, 0.7, 2 }, { 0.1, -0.2, 0.3 } },
+        { 15, { 0.3, -1, -0.4, -1, 1, -1 }, { 0.5, 0.7, 2 }, { 0.1, -0.2, 0.3 } } };
+    for (int k = -NREG; k < n; ++k) {
+        const Reg* reg = k < 0 ? &regs[k + NREG] : 0;
+        int type = reg ? reg->type : k % NMOBTYPES; bool rev = r.I(0, 1) == 1; bool euler = r.I(0, 1) == 1; int frames = r.I(0, 1);
+        if (reg) { rev = false; euler = false; frames = 0; }
         if (type == 16) rev = false;                     // there is no reverse Weld
         std::vector<Real> par;
         if (type == 11) par = { r.U(0.2, 1.5) * (r.I(0, 1) ? 1 : -1) };
         if (type == 12) { if (r.I(0, 3) == 0) { Real a = r.U(0.3, 1.2); par = { a, a, a }; } else par = { r.U(0.3, 1.2), r.U(0.3, 1.2), r.U(0.3, 1.2) }; }
         if (type == 15) par = { r.U(-1, 1), r.I(0, 1) ? 1.0 : -1.0, r.U(-1, 1), r.I(0, 1) ? 1.0 : -1.0, r.I(0, 1) ? 1.0 : -1.0, r.I(0, 1) ? 1.0 : -1.0 };
+        if (reg) par = reg->par;
         MultibodySystem sys; SimbodyMatterSubsystem matter(sys);
         Body::Rigid body(randomMassProps(r));
         Transform xp = frames ? r.xf() : Transform(), xb = frames ? r.xf() : Transform();
@@ -51,6 +70,7 @@ int main(int argc, char** argv) {
             for (int j = 0; j < 3; ++j) if (wideIdx[type][j] >= 0 && wideIdx[type][j] < nq) s.updQ()[wideIdx[type][j]] *= 2.5; }
         if (quat) { Vec4 e(r.U(-1, 1), r.U(-1, 1), r.U(-1, 1), r.U(-1, 1)); if (e.norm() < 0.2) e = Vec4(1, 0, 0, 0); e = e / e.norm(); for (int i = 0; i < 4; ++i) s.updQ()[i] = e[i]; }
         for (int i = 0; i < nu; ++i) s.updU()[i] = r.U(-1, 1);
+        if (reg) { for (int i = 0; i < (int)reg->q.size() && i < nq; ++i) s.updQ()[i] = reg->q[i]; for (int i = 0; i < (int)reg->u.size() && i < nu; ++i) s.updU()[i] = reg->u[i]; }
         sys.realize(s, Stage::Velocity);
         std::printf("CASE %d %d %d %d %d %d %d", type, (int)rev, (int)euler, frames, nq, nu, (int)par.size());
         for (Real p : par) std::printf(" %a", p);
